@@ -4,12 +4,15 @@ import json
 import os
 from lib import vf
 
-RULE = ("graph searches on the real core code (Dijkstra, A* with weight factors {default,0,1/2,1,3}, heuristic tables "
+RULE = ("graph searches on the real core code (Dijkstra, A* with weight factors {default,0,1/2,1,3,10,20}, heuristic tables "
         "zero/exact/half/admissible/inadmissible, vertex- and edge-oriented, forward and reverse, frontier tables, "
         "termination limits) on boundary families (dead ends, isolated/neighbour destination, self loops, parallel "
-        "edges, one-way ring, the edge-oriented u-turn/self-loop/adjacent shapes, absorption 2^60) and random digraphs "
+        "edges, one-way ring, the edge-oriented u-turn/self-loop/adjacent shapes, absorption 2^60, long haul 2^21..2^40 "
+        "followed by zero-length / 1e-12 mutual edges and 3-cycles in both edge-id orders, re-open gadgets where a vertex "
+        "with a child is back on the queue when the destination pops) and random digraphs "
         "(n 3..40, out-degree 0..8 with one vertex above 5, forced parallel edge / self loop / isolated vertex / "
-        "unreachable part; costs k/64 or integers 1..3). I vs M: status, iterations, every tree entry (vertex, parent, "
+        "unreachable part; costs k/64, integers 1..3, or long-haul mixtures of 2^k, 0, 1e-12, 1; one query in seven gets "
+        "the re-open gadget grafted; histogram key reopened_and_target_popped_first counts the cases that reach it). I vs M: status, iterations, every tree entry (vertex, parent, "
         "edge, access cost, traversal cost, state: floats bit-exact) and every route hop, skipped when the model "
         "popped among equal priorities (TIE). I vs S: verified check_route / check_tree evaluated in Coq on the "
         "implementation's output, all cases. Non-trivial = route of >= 2 edges, tree of >= 3 entries, or an error outcome; "
